@@ -272,7 +272,8 @@ theorem inv_client_plain_data :
 
 /-- C12: both `new_random_len` bodies draw `num_bytes` bytes, one `thread_rng().gen::<u8>()` per index in
 order `0..num_bytes`, collect them into a `Vec<u8>` and encode exactly that vector with
-`BASE64_URL_SAFE_NO_PAD`. -/
+`BASE64_URL_SAFE_NO_PAD` (written as `map/collect` or as the push loop it stands for, in place or in a shared
+private function); the PKCE one asserts the byte-count range first, the CSRF one asserts nothing. -/
 theorem inv_random_len :
     (randomLen.map (·.owner)).Perm ["CsrfToken", "PkceCodeChallenge"] ∧
     (∀ r ∈ randomLen,
@@ -283,7 +284,7 @@ theorem inv_random_len :
     (randomLen.map fun r => (r.owner, r.wrapper)).Perm
       [("CsrfToken", "CsrfToken::new"), ("PkceCodeChallenge", "PkceCodeVerifier::new")] ∧
     (∀ r ∈ randomLen, r.owner = "CsrfToken" → r.asserts = []) ∧
-    (∀ r ∈ randomLen, r.owner = "PkceCodeChallenge" → r.asserts = ["(32..=96).contains(&num_bytes)"]) := by
+    (∀ r ∈ randomLen, r.owner = "PkceCodeChallenge" → r.asserts = ["32<=p0<=96"]) := by
   refine ⟨?_, ?_, ?_, ?_, ?_⟩ <;> decide
 
 end GenObl
